@@ -352,16 +352,14 @@ func (ex *Exec) readerRead(st *State, r *RdrV, bufV Val, pos string) []callRes {
 	// EOF case: remaining <= 0
 	zero := mkConst(0, 64, true)
 	if le, k := st.Decide("<=", remaining, zero); k && le {
-		if c, ok := st.ConstOf(buf.Len); ok && c == 0 {
-			return []callRes{{st: st, ret: &TupleV{Vs: []Val{zero, nilErr()}}}}
-		}
-		return []callRes{{st: st, ret: &TupleV{Vs: []Val{zero, &IfaceV{Unk: true, NonNil: true}}}}}
+		// (*bytes.Reader).Read at the end returns io.EOF even for an empty buffer
+		return []callRes{{st: st, ret: &TupleV{Vs: []Val{zero, &IfaceV{Unk: true, NonNil: true, Sentinel: "io.EOF"}}}}}
 	} else if !k {
 		// fork: empty / non-empty
 		st2 := st.Clone()
 		var out []callRes
 		if st2.Assume("<=", remaining, zero) {
-			out = append(out, callRes{st: st2, ret: &TupleV{Vs: []Val{zero, &IfaceV{Unk: true, NonNil: true}}}})
+			out = append(out, callRes{st: st2, ret: &TupleV{Vs: []Val{zero, &IfaceV{Unk: true, NonNil: true, Sentinel: "io.EOF"}}}})
 		}
 		if !st.Assume(">", remaining, zero) {
 			return out
